@@ -12,6 +12,8 @@ ALPHABETS = {
     'code': ['`', 'a', '\n', ' ', '~', '\t', '>', '-'],
     'uni': ['a', '1', '.', '“', '\xa0', ' ', '\xa3', '\xe9', '日', '*', '_', '[', ']'],
     'wiki': ['[[', ']]', '|', 'a', ' ', '$', '{{', '}}', '/', '\n'],
+    # character references that stand for white space (a paragraph made of them has no words) next to block structure
+    'ent': ['&#32;', '&nbsp;', '&#9;', '&#10;', '&amp;', '> ', '- ', '\n', ' ', 'a', '#', '|', '`', '*'],
 }
 
 LINES = ['foo', '# h', '---', '===', '- a', '  b', '    c', '```', '> q', '1. x', '', '| a | b |', '|---|---|',
